@@ -24,9 +24,20 @@ func c18One(l *LabCtx) {
 		return
 	}
 	// baseline relative to the current bonded amount: inside the band, on its edges, outside
-	num := []int64{100, 100, 100, 96, 95, 105, 104, 90, 110, 101, 99}[r.Pick(11)]
-	base := cur.MulRaw(100).QuoRaw(num).AddRaw(int64(r.Pick(5)) - 2)
-	if !base.IsPositive() {
+	num := []int64{100, 100, 100, 96, 95, 105, 104, 90, 110, 101, 99, 0, 1, 1000}[r.Pick(14)]
+	var base math.Int
+	switch num {
+	case 0:
+		// what genesis records: an amount of zero (every addition exceeds 105 % of it, no removal goes below 95 % of it)
+		base = math.ZeroInt()
+	case 1:
+		base = math.NewInt(int64(1 + r.Pick(40))) // a recorded amount of a few units
+	case 1000:
+		base = cur.MulRaw(int64(2 + r.Pick(9))) // far above the current stake
+	default:
+		base = cur.MulRaw(100).QuoRaw(num).AddRaw(int64(r.Pick(5)) - 2)
+	}
+	if base.IsNegative() {
 		return
 	}
 	exp := l.Ctx.BlockTime().Add(time.Hour)
